@@ -606,7 +606,7 @@ theorem session_atts (etls : Bool) (tlsa : Int) (toks : List Tok) (evs : List Ev
     | reset => simp only [sessEvs]; exact atts_app _ _ rfl
     | timeout => simp only [sessEvs]; exact atts_app _ _ rfl
     | invalid => simp only [sessEvs, List.append_assoc]; exact atts_app _ _ rfl
-    | other => simp only [sessEvs]; exact atts_app _ _ rfl
+    | other => simp only; split <;> (simp only [sessEvs]; exact atts_app _ _ rfl)
     | code c more =>
       simp only
       have hg := greetLines_atts (toks1.length + 1) c false more toks1 (evs ++ [.net (.code c more)])
